@@ -25,13 +25,13 @@ use grin_util::{StopState, ToHex};
 use rand::rngs::StdRng;
 use rand::{Rng, SeedableRng};
 use serde_json::{json, Value};
+use std::collections::HashSet;
 use std::fs::{self, File};
 use std::io::{Read, Write};
 use std::panic::{catch_unwind, AssertUnwindSafe};
 use std::sync::Arc;
 use vcommon::*;
 
-const UNIT: u64 = 15_000_000_000;
 const TREES: [&str; 4] = ["bitmap", "output", "rangeproof", "kernel"];
 
 fn keychain() -> ExtKeychain {
@@ -205,6 +205,10 @@ pub fn run(args: &Args) -> i32 {
 		grin_util::init_test_logger();
 	}
 	match args.pos.get(1).map(|s| s.as_str()) {
+		Some("hook") => {
+			println!("{}", cfg!(seg_hook));
+			0
+		}
 		Some("build") => build_phase(args),
 		Some("run") => run_phase(args),
 		_ => {
@@ -249,7 +253,7 @@ fn build_phase(args: &Args) -> i32 {
 		let prev = blocks[(h - 1) as usize].header.clone();
 		// spend 1..3 matured outputs (preferably neighbours created by one transaction) into several outputs
 		let spendable: Vec<usize> = (0..utxos.len())
-			.filter(|i| !utxos[*i].coinbase || utxos[*i].height + 4 <= h)
+			.filter(|i| (!utxos[*i].coinbase || utxos[*i].height + 4 <= h) && utxos[*i].value >= 200_000_000)
 			.collect();
 		let mut txs: Vec<Transaction> = vec![];
 		let mut fees = 0u64;
@@ -265,7 +269,7 @@ fn build_phase(args: &Args) -> i32 {
 			}
 			ins.sort();
 			let total: u64 = ins.iter().map(|i| utxos[*i].value).sum();
-			let fee = UNIT / 15; // 1 grin
+			let fee = 10_000_000u64; // 0.01 grin (values shrink as outputs are split again and again)
 			let k = rng.gen_range(1, max_outs + 1);
 			let mut elems = vec![];
 			for i in &ins {
@@ -399,29 +403,42 @@ fn new_receiver(dir: &str, g: &Block, blocks: &[Block], archive_height: u64) -> 
 }
 
 /// The corruption kinds of the scenarios, applied to the wire bytes of an honest segment.
-fn corrupt<T: Clone + Readable + Writeable> (
+fn corrupt<T: Clone + Readable + Writeable>(
 	bytes: &[u8],
 	kind: &str,
-	alt: &dyn Fn(&mut PlainSeg<T>),
+	alt: &dyn Fn(&mut PlainSeg<T>, usize),
+	required: Option<&HashSet<u64>>,
 ) -> Result<Segment<T>, String> {
 	let seg: Segment<T> = from_bytes(bytes).map_err(|e| format!("unreadable: {}", e))?;
-	corrupt_seg(seg, kind, alt, false)
+	corrupt_seg(seg, kind, alt, false, required)
 }
 
-fn corrupt_seg<T: Clone + Readable + Writeable> (
+fn corrupt_seg<T: Clone + Readable + Writeable>(
 	seg: Segment<T>,
 	kind: &str,
-	alt: &dyn Fn(&mut PlainSeg<T>),
+	alt: &dyn Fn(&mut PlainSeg<T>, usize),
 	direct: bool,
+	required: Option<&HashSet<u64>>,
 ) -> Result<Segment<T>, String> {
 	let mut ps = PlainSeg::of(&seg);
+	// a leaf whose data the root depends on: an unspent one for the prunable trees (the data of spent leaves is
+	// not authenticated by validation), any leaf otherwise; the last such leaf of the segment
+	let pick = (0..ps.leaf_pos.len())
+		.rev()
+		.find(|i| required.map(|r| r.contains(&ps.leaf_pos[*i])).unwrap_or(true));
 	match kind {
 		"honest" | "stale" | "wrong_tree" => {}
-		"alt_leaf" => alt(&mut ps),
-		"omit_leaf" => {
-			ps.leaf_pos.pop();
-			ps.leaf_data.pop();
-		}
+		"alt_leaf" => match pick {
+			Some(i) => alt(&mut ps, i),
+			None => return Err("unavailable".into()),
+		},
+		"omit_leaf" => match pick {
+			Some(i) => {
+				ps.leaf_pos.remove(i);
+				ps.leaf_data.remove(i);
+			}
+			None => return Err("unavailable".into()),
+		},
 		"drop_proof" => {
 			ps.proof.pop();
 		}
@@ -439,10 +456,11 @@ fn corrupt_seg<T: Clone + Readable + Writeable> (
 	}
 }
 
-fn swap_last_two<T: Clone>(ps: &mut PlainSeg<T>) {
-	let n = ps.leaf_data.len();
-	if n >= 2 {
-		ps.leaf_data.swap(n - 1, n - 2);
+/// Replace the data of leaf i by the (different) data of a neighbouring leaf.
+fn copy_neighbour<T: Clone>(ps: &mut PlainSeg<T>, i: usize) {
+	let j = if i > 0 { i - 1 } else { i + 1 };
+	if j < ps.leaf_data.len() {
+		ps.leaf_data[i] = ps.leaf_data[j].clone();
 	}
 }
 
@@ -484,6 +502,14 @@ fn run_phase(args: &Args) -> i32 {
 	let ainfo = &info["archive"];
 	let archive_height = ainfo["height"].as_u64().unwrap();
 	let heights: Vec<u8> = TREES.iter().map(|t| ainfo[*t]["height"].as_u64().unwrap() as u8).collect();
+	// positions (0-based) of the outputs unspent at the archive header (from the block-by-block twin)
+	let unspent_pos0: HashSet<u64> = info["twin"]["unspent"]
+		.as_object()
+		.unwrap()
+		.values()
+		.filter_map(|v| v.get("pos").and_then(|p| p.as_u64()))
+		.map(|p| p - 1)
+		.collect();
 	let scens = read_ndjson(args.req("scen"));
 	let mut out = NdWriter::create(args.req("out"));
 	for (si, sc) in scens.iter().enumerate() {
@@ -532,6 +558,20 @@ fn run_phase(args: &Args) -> i32 {
 					continue;
 				}
 			};
+			let default_heights = heights == vec![9u8, 11, 11, 11];
+			if !default_heights {
+				#[cfg(seg_hook)]
+				{
+					if let Some(de) = d.write().as_mut() {
+						de.verif_set_segment_heights(heights[0], heights[1], heights[2], heights[3]);
+					}
+				}
+				#[cfg(not(seg_hook))]
+				{
+					out.put(&json!({"name": name, "tool_error": "non-default segment heights need the cfg(grin_verif) hook"}));
+					continue;
+				}
+			}
 			let sizes: Vec<u64> = TREES.iter().map(|t| ainfo[*t]["size"].as_u64().unwrap()).collect();
 			let proj = |events_len: usize| -> Value {
 				let _ = events_len;
@@ -605,8 +645,8 @@ fn run_phase(args: &Args) -> i32 {
 								"bitmap" => {
 									let bs: BitmapSegment = from_bytes(&bytes).map_err(|e| format!("unreadable: {}", e))?;
 									let s0: Segment<BitmapChunk> = bs.into_segment().map_err(|e| format!("unreadable: {}", e))?;
-									let s = corrupt_seg::<BitmapChunk>(s0, kind, &|ps| {
-										let n = ps.leaf_data.len();
+									let s = corrupt_seg::<BitmapChunk>(s0, kind, &|ps, i| {
+										let n = i + 1;
 										let old = ps.leaf_data[n - 1].clone();
 										let mut c = BitmapChunk::new();
 										let set: Vec<u32> = old.set_iter(0).collect();
@@ -615,26 +655,35 @@ fn run_phase(args: &Args) -> i32 {
 										}
 										c.set(5, !set.contains(&5));
 										ps.leaf_data[n - 1] = c;
-									}, true)?;
+									}, true, None)?;
 									de.add_bitmap_segment(s, other_root.unwrap()).map_err(|e| format!("{}", e))
 								}
 								"output" => {
-									let s = corrupt::<OutputIdentifier>(&bytes, kind, &swap_last_two)?;
+									let s = corrupt::<OutputIdentifier>(&bytes, kind, &copy_neighbour, Some(&unspent_pos0))?;
 									de.add_output_segment(s, other_root).map_err(|e| format!("{}", e))
 								}
 								"rangeproof" => {
-									let s = corrupt::<RangeProof>(&bytes, kind, &swap_last_two)?;
+									let s = corrupt::<RangeProof>(&bytes, kind, &copy_neighbour, Some(&unspent_pos0))?;
 									de.add_rangeproof_segment(s).map_err(|e| format!("{}", e))
 								}
 								_ => {
-									let s = corrupt::<TxKernel>(&bytes, kind, &swap_last_two)?;
+									let s = corrupt::<TxKernel>(&bytes, kind, &copy_neighbour, None)?;
 									de.add_kernel_segment(s).map_err(|e| format!("{}", e))
 								}
 							}
 						}));
 						let (verdict, err) = match r {
 							Ok(Ok(())) => ("accept", String::new()),
-							Ok(Err(e)) => (if e.starts_with("unreadable") { "unreadable" } else { "refuse" }, e),
+							Ok(Err(e)) => (
+								if e.starts_with("unreadable") {
+									"unreadable"
+								} else if e == "unavailable" {
+									"unavailable"
+								} else {
+									"refuse"
+								},
+								e,
+							),
 							Err(_) => ("panic", String::new()),
 						};
 						let mut e = json!({"k": "Add", "tree": tree, "idx": idx, "kind": kind, "verdict": verdict, "err": err});
